@@ -20,6 +20,8 @@
   every run by the tie and the e2e oracle (harness/c06.go), not proved in Lean — see manifest note.
 -/
 import GormModel.Lemmas.Heap
+import GormModel.Lemmas.HeapQuiet
+import GormModel.Lemmas.HeapSim
 namespace Gorm
 open Gorm.Heap
 
@@ -52,7 +54,13 @@ theorem C06_writes_monotone (c : Cfg) (slices : List (List Nat × Nat)) (fuel : 
 def cfg0 : Cfg :=
   { cl := { clauses := .freshMapShallow, selects := .shared, omits := .shared, joins := .makeCopy, scopes := .makeCopy,
             clone2UsesClone := true },
-    mg := { wher := .makeCopy, order := .makeCopy, group := .makeCopy, ret := .appendOld } }
+    mg := { wher := .makeCopy, order := .makeCopy, group := .makeCopy, ret := .appendOld },
+    fx := { groupCopies := false, groupInstance := false, buildCopies := false, selectCopies := false } }
+
+/-- the discipline of a tree that carries the five small repairs (fixes/F4, F5, F23, F22, F24): copies everywhere -/
+def cfgFixed : Cfg :=
+  { cfg0 with mg := { cfg0.mg with ret := .makeCopy },
+              fx := { groupCopies := true, groupInstance := true, buildCopies := true, selectCopies := true } }
 
 /-- non-vacuity: a history with shared ancestors, siblings, a group argument and renderings that writes
     no exposed slot, and whose renderings all equal their replays alone -/
@@ -89,9 +97,15 @@ theorem C06_step_never_writes (c : Cfg) (hw : c.mg.wher ≠ .appendOld) (ho : c.
 
 /-- REGENERATED FACTS: `Statement.clone()` builds a fresh Clauses map with the old entries, copies Joins
     and scopes with make+copy, shares Selects/Omits by reference; `getInstance` with clone == 2 goes through
-    `Statement.clone()`; Where/OrderBy/GroupBy.MergeClause copy — Returning.MergeClause appends onto the
-    old clause's slice.  A changed copy or merge discipline re-states this theorem. -/
-theorem C06_current_tree : genAll = cfg0 := by decide
+    `Statement.clone()`; Where/OrderBy/GroupBy.MergeClause copy.  The five places the listed findings live in
+    (Returning.MergeClause, BuildCondition's `*DB` arm twice, Where.Build, Select) are left open here: the
+    theorems below are keyed on what the regenerated facts say about each of them, so this statement is the
+    same on the unchanged tree and on a tree carrying the repairs.  Any OTHER change of the copy or merge
+    discipline breaks it. -/
+theorem C06_current_tree : genAll = { cfg0 with mg := { cfg0.mg with ret := genAll.mg.ret }, fx := genAll.fx } := by decide
+
+/-- … and each of the five open places is one of the two disciplines the model knows (in place / copy) -/
+theorem C06_current_tree_ret : genAll.mg.ret = .appendOld ∨ genAll.mg.ret = .makeCopy := by decide
 
 /-- every field of `type Statement struct` is classified by the clone facts (a field added without a
     `clone` entry shows up as `dropped` and must be added here consciously) -/
@@ -108,7 +122,7 @@ theorem C06_clone_fields_classified :
 /-- on the current tree the copying step kinds never write an exposed slot — unless the step is a
     Returning merge: the only hypothesis of `C06_step_never_writes` the regenerated facts refute -/
 theorem C06_current_tree_merges : genAll.mg.wher ≠ .appendOld ∧ genAll.mg.order ≠ .appendOld ∧ genAll.mg.group ≠ .appendOld := by
-  rw [C06_current_tree]; decide
+  decide
 
 /-! ## counterexamples: the step kinds that DO write exposed slots on the unchanged tree -/
 
@@ -153,8 +167,66 @@ theorem C06_select_caller_slice_counterexample :
     (run cfg0 8 f22History).out 0 = [.fin 0, .sel 1, .sel 2, .sel 4] ∧
     (run cfg0 8 (sliceFor f22History 2)).out 0 = [.fin 0, .sel 1, .sel 2, .sel 3] := by decide +kernel
 
-/-- `Where.Build` rendered twice from the same shared list gives the same tokens (the swap is
-    idempotent for DIRECT rendering) — checked on the F23 list; the general statement is open. -/
+/-- F24: a reusable handle with pending Scopes used as a group condition: `v.executeScopes()` on the argument
+    itself sets `scopes = nil` in the handle's statement, the scopes' conditions go to a discarded instance —
+    the group lacks them and `h.Find()` has lost its WHERE afterwards. -/
+def f24History : History := ⟨[], [.scopes 0 1, .session 1, .render 2 0, .cond 0 0 2, .condG 0 4 2, .render 5 0, .render 2 0]⟩
+
+theorem C06_group_arg_scopes_counterexample :
+    (run cfg0 8 f24History).out 0 = [.fin 0, .whereKw, .cond 1] ∧
+    (run cfg0 8 f24History).out 1 = [.fin 0, .whereKw, .cond 2] ∧
+    (run cfg0 8 f24History).out 2 = [.fin 0] ∧
+    (run cfg0 8 (sliceFor f24History 6)).out 0 = [.fin 0, .whereKw, .cond 1] := by decide +kernel
+
+/-! ## the same witnesses on a tree that carries the repairs -/
+
+/-- does rendering number `n` (made by op `k`) differ from the same chain replayed alone? -/
+def interferes (c : Cfg) (h : History) (k n : Nat) : Bool :=
+  (run c 8 h).out n != (run c 8 (sliceFor h k)).outs.getLast?.getD []
+
+/-- with all five repairs the five witnesses are interference-free, no exposed slot is written, and the
+    group built from the scoped handle contains the scope's condition -/
+theorem C06_witnesses_repaired :
+    interferes cfgFixed f4History 6 0 = false ∧ interferes cfgFixed f5History 6 1 = false ∧
+    interferes cfgFixed f23History 6 1 = false ∧ interferes cfgFixed f22History 2 0 = false ∧
+    interferes cfgFixed f24History 6 2 = false ∧
+    (run cfgFixed 8 f4History).heap.writes = 0 ∧ (run cfgFixed 8 f5History).heap.writes = 0 ∧
+    (run cfgFixed 8 f23History).heap.writes = 0 ∧ (run cfgFixed 8 f22History).heap.writes = 0 ∧
+    (run cfgFixed 8 f24History).heap.writes = 0 ∧
+    (run cfgFixed 8 f24History).out 1 = [.fin 0, .whereKw, .cond 2, .and, .cond 1] := by decide +kernel
+
+/-- WHAT HOLDS FOR THE CURRENT SOURCE TREE: each witness interferes exactly when the regenerated fact about
+    its place says "in place" — the same statement on the unchanged tree (all five interfere: the findings)
+    and on a tree carrying any subset of the repairs (those witnesses no longer interfere). -/
+theorem C06_findings_current_tree :
+    interferes genAll f4History 6 0 = (genAll.mg.ret == .appendOld) ∧
+    interferes genAll f5History 6 1 = (!genAll.fx.groupCopies) ∧
+    interferes genAll f23History 6 1 = (!genAll.fx.buildCopies) ∧
+    interferes genAll f22History 2 0 = (!genAll.fx.selectCopies) ∧
+    interferes genAll f24History 6 2 = (!genAll.fx.groupInstance) := by decide +kernel
+
+/-- … for EVERY combination of repaired / unrepaired places (not only the one the tree is in) -/
+theorem C06_findings_all_trees (r : Bool) (gc gi bc sc : Bool) :
+    let c : Cfg := { cfg0 with mg := { cfg0.mg with ret := if r then .makeCopy else .appendOld },
+                               fx := { groupCopies := gc, groupInstance := gi, buildCopies := bc, selectCopies := sc } }
+    interferes c f4History 6 0 = (!r) ∧ interferes c f5History 6 1 = (!gc) ∧ interferes c f23History 6 1 = (!bc) ∧
+    interferes c f22History 2 0 = (!sc) ∧ interferes c f24History 6 2 = (!gi) := by
+  cases r <;> cases gc <;> cases gi <;> cases bc <;> cases sc <;> decide +kernel
+
+/-! ## the swap of `Where.Build` -/
+
+/-- BENIGNITY of the repaired `Where.Build` (swap on a copy), for every heap, every list and every nesting
+    depth: it writes nothing at all — the heap after the call IS the heap before it.  Hence rendering is
+    idempotent (any number of renderings of any handle give the same tokens) and invisible to every other
+    chain, group conditions included. -/
+theorem C06_swap_on_copy_benign (fuel : Nat) (H : Heap) (w : Slice) :
+    (whereBuild true fuel H w).1 = H ∧
+    (whereBuild true fuel (whereBuild true fuel H w).1 w).2 = (whereBuild true fuel H w).2 := by
+  have h := whereBuild_copies_heap fuel H w
+  exact ⟨h, by rw [h]⟩
+
+/-- … whereas the in-place swap is idempotent only for DIRECT rendering of the same list (checked on the F23
+    list; `C06_swap_counterexample` shows it is not benign for a group built from that list). -/
 theorem C06_swap_idempotent_instance :
     (run cfg0 8 ⟨[], [.cond 1 0 1, .cond 0 1 2, .session 2, .render 3 0, .render 3 0]⟩).outs =
       [[.fin 0, .whereKw, .cond 2, .or, .cond 1], [.fin 0, .whereKw, .cond 2, .or, .cond 1]] := by decide +kernel
@@ -187,5 +259,108 @@ theorem C06_noninterference_partial (slices : List (List Nat × Nat)) (fuel : Na
       show (runFrom genAll slices fuel (step genAll slices fuel S op) ops).heap.writes = S.heap.writes
       rw [ih (fun o ho => hops o (List.mem_cons_of_mem _ ho)), hstep]
   exact C06_frozen genAll slices fuel S ops (hwr S) s v
+
+/-! ## the tree with copies everywhere: linear histories are quiet, hence frozen -/
+
+theorem C06_cfgFixed_eq : cfgFixed = cfgSafe := rfl
+
+/-- QUIET: with copies everywhere (regenerated facts = `cfgFixed`), in EVERY history in which a chain instance
+    is used at most once more (`Linear`: handle 0 and the results of Session / Session{NewDB} / WithContext /
+    Begin any number of times; no forward references) — derivations, all 24 chain methods, handles with or
+    without pending scopes as group conditions, Select/Joins/Scopes appends, Find/First/Count/Delete renderings —
+    no step ever writes a slot that any slice already exposes.  (The remaining in-place appends of Joins / Scopes /
+    Select hit the frontier of an array only the appending chain owns: ownership invariant in Lemmas/HeapQuiet.) -/
+theorem C06_linear_history_quiet (fuel : Nat) (sl : List (List Nat × Nat)) (ops : List Op) (hl : Linear ops) (n : Nat) :
+    (run cfgFixed fuel ⟨sl, ops.take n⟩).heap.writes = 0 :=
+  quiet_of_linear sl fuel ops hl n
+
+/-- FROZEN for linear histories: whatever is built, executed or abandoned after any point of the history, every
+    slice that existed at that point — everything reachable from every handle that existed — reads the same
+    at the end. -/
+theorem C06_linear_history_frozen (fuel : Nat) (sl : List (List Nat × Nat)) (pre post : List Op) (hl : Linear (pre ++ post))
+    (s : Slice) (v : s.validIn (run cfgFixed fuel ⟨sl, pre⟩).heap) :
+    readS (run cfgFixed fuel ⟨sl, pre ++ post⟩).heap s = readS (run cfgFixed fuel ⟨sl, pre⟩).heap s := by
+  apply C06_frozen_history cfgFixed fuel sl pre post _ s v
+  have h1 := quiet_of_linear sl fuel (pre ++ post) hl (pre ++ post).length
+  have h2 := quiet_of_linear sl fuel (pre ++ post) hl pre.length
+  rw [List.take_length] at h1
+  rw [List.take_left'  rfl] at h2
+  show (runFrom cfgFixed sl fuel (initState sl) (pre ++ post)).heap.writes = (runFrom cfgFixed sl fuel (initState sl) pre).heap.writes
+  rw [C06_cfgFixed_eq, h1, h2]
+
+/-! ## NON-INTERFERENCE -/
+
+/-- THE PROPERTY, on a tree whose regenerated facts say "copies everywhere" (`cfgFixed`): for EVERY history in
+    which chain instances are used at most once more (`Linear`) — any tree of Session / Session{NewDB} /
+    WithContext / Begin derivations, all chain methods incl. handles (with or without pending scopes) as group
+    conditions, Select / Joins / Scopes appends, renderings (Where.Build's swap), First / Count / Delete shaping,
+    any capacities, any nesting depth (`fuel`) — the rendering made by op `k` inside the history is exactly the
+    rendering of the same chain replayed alone (`sliceFor`: every op the chain does not depend on replaced by
+    nothing).  Proof: linear histories are quiet (ownership invariant, Lemmas/HeapQuiet), quiet runs are frozen,
+    and rendering reads only slices reachable from the chain's own handle, whose deep values (array identities
+    quotiented away) agree in the two runs by a lockstep simulation (Lemmas/HeapSim). -/
+theorem C06_noninterference (fuel : Nat) (sl : List (List Nat × Nat)) (ops : List Op) (hl : Linear ops)
+    (k src fin : Nat) (hk : ops[k]? = some (.render src fin)) :
+    (run cfgFixed fuel ⟨sl, ops.take (k + 1)⟩).outs.getLast? = (run cfgFixed fuel (sliceFor ⟨sl, ops⟩ k)).outs.getLast? :=
+  sim_slice sl fuel ops k src fin hk (quiet_of_linear sl fuel ops hl) (quiet_sliceFor fuel ⟨sl, ops⟩ hl k)
+
+/-- … and in the stronger "whatever else happens" form: two linear histories that contain the same chain (agree
+    on a set `R` of handles closed under source and arguments of the ops that created them) and ANYTHING else
+    at the other positions render that chain identically. -/
+theorem C06_noninterference_any_context (fuel : Nat) (sl : List (List Nat × Nat)) (ops1 ops2 : List Op) (R : Nat → Bool)
+    (ha : Agree ops1 ops2 R) (h1 : Linear ops1) (h2 : Linear ops2)
+    (k src fin : Nat) (hk : ops1[k]? = some (.render src fin)) (hR : R (k + 1) = true) :
+    (run cfgFixed fuel ⟨sl, ops1.take (k + 1)⟩).outs.getLast? = (run cfgFixed fuel ⟨sl, ops2.take (k + 1)⟩).outs.getLast? :=
+  sim_render sl fuel ops1 ops2 R ha (quiet_of_linear sl fuel ops1 h1) (quiet_of_linear sl fuel ops2 h2) k src fin hk hR
+
+/-- WHAT HOLDS FOR THE CURRENT SOURCE TREE, decided by the regenerated facts — the same statement on every tree:
+    either the facts say "copies everywhere" and non-interference holds in full for the tree's own discipline
+    `genAll`; or some place is still "in place", then a listed witness interferes under `genAll` (the finding)
+    and the partial theorem `C06_noninterference_partial` is what remains. -/
+theorem C06_noninterference_current_tree :
+    (genAll = cfgFixed ∧
+      ∀ (fuel : Nat) (sl : List (List Nat × Nat)) (ops : List Op), Linear ops → ∀ (k src fin : Nat),
+        ops[k]? = some (.render src fin) →
+        (run genAll fuel ⟨sl, ops.take (k + 1)⟩).outs.getLast? = (run genAll fuel (sliceFor ⟨sl, ops⟩ k)).outs.getLast?) ∨
+    (genAll ≠ cfgFixed ∧
+      (interferes genAll f4History 6 0 = true ∨ interferes genAll f5History 6 1 = true ∨ interferes genAll f23History 6 1 = true ∨
+       interferes genAll f22History 2 0 = true ∨ interferes genAll f24History 6 2 = true)) := by
+  by_cases h : genAll = cfgFixed
+  · left
+    refine ⟨h, fun fuel sl ops hl k src fin hk => ?_⟩
+    rw [h]; exact C06_noninterference fuel sl ops hl k src fin hk
+  · right
+    refine ⟨h, ?_⟩
+    obtain ⟨h4, h5, h23, h22, h24⟩ := C06_findings_current_tree
+    rw [h4, h5, h23, h22, h24]
+    by_cases c1 : genAll.mg.ret = .appendOld
+    · left; simp [c1]
+    · by_cases c2 : genAll.fx.groupCopies = false
+      · right; left; simp [c2]
+      · by_cases c3 : genAll.fx.buildCopies = false
+        · right; right; left; simp [c3]
+        · by_cases c4 : genAll.fx.selectCopies = false
+          · right; right; right; left; simp [c4]
+          · by_cases c5 : genAll.fx.groupInstance = false
+            · right; right; right; right; simp [c5]
+            · exfalso; apply h
+              have ht := C06_current_tree
+              have hr : genAll.mg.ret = .makeCopy := by
+                rcases C06_current_tree_ret with e | e
+                · exact absurd e c1
+                · exact e
+              rw [ht, hr]
+              have e2 : genAll.fx.groupCopies = true := by simpa using c2
+              have e3 : genAll.fx.buildCopies = true := by simpa using c3
+              have e4 : genAll.fx.selectCopies = true := by simpa using c4
+              have e5 : genAll.fx.groupInstance = true := by simpa using c5
+              generalize genAll.fx = fx at *
+              cases fx
+              simp only at e2 e3 e4 e5
+              subst e2 e3 e4 e5
+              rfl
+
+/-- `Linear` is decidable (the harness generator obeys it) and not vacuous -/
+example : Linear f5History.ops := (linear_iff_linearB _).2 (by decide)
 
 end Gorm
